@@ -910,6 +910,31 @@ def k16_determinism(core, rep, extra_modules=()):
                 rep.ob('K16', f'{rel}/call:{x.func.id}@{unparse(x, 40)}', False, f'{unparse(x)}: object identity / hash order must not influence results', f'{rel}:{x.lineno}')
             if isinstance(x, ast.Attribute) and attr_text(x) in ('os.environ', 'os.listdir', 'os.scandir', 'os.getpid'):
                 rep.ob('K16', f'{rel}/{attr_text(x)}', False, f'{attr_text(x)} used in {rel}', f'{rel}:{x.lineno}')
+    # local sets whose iteration order reaches a result: a set of texts is ordered by the per-process hash seed, so joining
+    # or listing it gives a different text from run to run
+    def _is_set(e):
+        return isinstance(e, (ast.Set, ast.SetComp)) or (isinstance(e, ast.Call) and isinstance(e.func, ast.Name) and e.func.id in ('set', 'frozenset'))
+    for rel in rels + list(extra_modules):
+        mod = core.tree.module(rel)
+        for fn in [x for x in ast.walk(mod) if isinstance(x, (ast.FunctionDef, ast.Lambda))]:
+            sets = {t_.id for x in ast.walk(fn) if isinstance(x, ast.Assign) and _is_set(x.value) for t_ in x.targets if isinstance(t_, ast.Name)}
+            for x in ast.walk(fn):
+                it = None
+                if isinstance(x, ast.For):
+                    it = x.iter
+                elif isinstance(x, ast.comprehension):
+                    it = x.iter
+                elif isinstance(x, ast.Call):
+                    nm = x.func.id if isinstance(x.func, ast.Name) else x.func.attr if isinstance(x.func, ast.Attribute) else None
+                    if nm in ('join', 'list', 'tuple', 'enumerate', 'zip', 'iter', 'next', 'map', 'filter', 'reversed') and x.args:
+                        it = x.args[0] if nm != 'zip' else next((a for a in x.args if (isinstance(a, ast.Name) and a.id in sets) or _is_set(a)), None)
+                if it is None:
+                    continue
+                if (isinstance(it, ast.Name) and it.id in sets) or _is_set(it):
+                    n += 1
+                    rep.ob('K16', f'{rel}/set-order@{unparse(x, 50) if not isinstance(x, ast.comprehension) else unparse(it, 50)}', False,
+                           f'`{unparse(it, 40)}` is a set and `{unparse(x, 60) if not isinstance(x, ast.comprehension) else unparse(it, 40)}` walks it in its internal order: for texts that order changes '
+                           'with the interpreter\'s hash seed, so the value differs from one run to the next on the same inputs (use sorted(), or a list)', f'{rel}:{it.lineno}')
     # iteration over set-typed solver state
     s = core.solver
     set_attrs = set()
@@ -1096,6 +1121,18 @@ def k20_ctrl_c(core, rep):
         loops = [n for n in g.nodes if n.kind == 'F' and n.label == 'loop-exit' and g.dominates(n, node)]
         ok = ok and any('.valid(' in unparse(n.ast) for n in loops)
     rep.ob('K20', 'answer-returned-only-when-valid', ok, 'prompt_input() can return an answer that did not pass the input\'s valid()', _w(f))
+    # the text that is validated, returned, stored and written back is what input() handed over: the same characters in the
+    # input file would be kept as they are, so anything done to a typed answer (stripping quotes, blanks, case) makes typed and
+    # file-supplied text differ
+    for r in rets:
+        var = r.value.elts[0]
+        if isinstance(var, ast.Name):
+            other = [x for x in ast.walk(f.node) if isinstance(x, (ast.Assign, ast.AugAssign))
+                     and any(isinstance(t_, ast.Name) and t_.id == var.id for t_ in (x.targets if isinstance(x, ast.Assign) else [x.target]))
+                     and not (isinstance(x, ast.Assign) and (_const(x.value, None) or (isinstance(x.value, ast.Call) and isinstance(x.value.func, ast.Name) and x.value.func.id == 'input')))]
+            rep.ob('K20', 'answer-is-the-text-input()-returned', not other,
+                   f'prompt_input() changes the typed text (`{unparse(other[0], 70) if other else ""}`): the same characters supplied in the input file are used as they are, so the result depends on '
+                   'whether a value was typed or read', _w(f, other[0]) if other else _w(f))
     # ... and what is returned is the very text that passed: nothing rewrites it between the validating loop and the return
     for r in rets:
         var = r.value.elts[0]
@@ -1279,6 +1316,15 @@ def k22_solution_agreement(core, rep):
                     return n.value.value
         return None
     sw, sr, kr = const_of(sec_w, cli.node), const_of(sec_r, fp.node), const_of(key_r, fp.node)
+    # every solution that is written - complete or partial - says which year it was solved for, and the reader takes the year
+    # from the file only (a default year would read a year-less file with some year's forms)
+    cond = [p_ for p_ in _parents(w[0]) if isinstance(p_, (ast.If, ast.Try, ast.While, ast.For, ast.With)) and p_ is not cli.node]
+    rep.ob('K22a', 'year-written-into-every-solution', not cond,
+           f'the CLI attaches the tax year only under a condition (`{unparse(getattr(cond[0], "test", cond[0]), 40) if cond else ""}`): a solution written on the other branch (a partial one) carries no '
+           'year and fill-pdfs cannot know which year\'s forms it was solved with', _w(cli, w[0]))
+    lenient = [k.arg for k in r[0].keywords if k.arg in ('fallback', 'vars', 'raw')] + (['positional default'] if len(r[0].args) > 2 else [])
+    rep.ob('K22a', 'year-read-from-the-file-only', not lenient,
+           f'fill-pdfs reads the tax year with {lenient}: a solution without the year is silently read with the forms of a default year', _w(fp, r[0]))
     rep.ob('K22a', 'year-section-agrees', sw is not None and sw == sr, f'the solution writes its metadata to section {sw!r} but fill-pdfs reads {sr!r}', _w(fp))
     rep.ob('K22a', 'year-key-agrees', kr in keys_w and unparse(keys_w.get(kr)) == 'args.year' and call_name(r[0]) == 'getint',
            f'fill-pdfs reads {kr!r} with {call_name(r[0])}() but the solution writes {sorted(keys_w)} (tax year from {unparse(keys_w.get(kr)) if kr in keys_w else None})', _w(fp))
@@ -1327,6 +1373,25 @@ def k22_solution_agreement(core, rep):
         rep.ob('K22b', 'FloatField.to_string/formats-the-value-itself', ok,
                f'FloatField.to_string() changes the amount before formatting it (`{unparse(rebound[0], 50) if rebound else unparse(ts.body[-1], 50)}`): a sign or digits are lost on the way into the solution '
                '(lines kept to 3 or 5 places hold small negative values that are not zero)', f'{ci.rel}:{ts.lineno}')
+    if fs is not None:
+        # what is read back is rounded exactly like what was stored: round(float(text), places), the operation FloatField.value
+        # applies - any other scheme (scaling by 10**places first) differs from it for some magnitudes
+        sp_ = fs.args.args[1].arg
+        rets_ = [x for x in ast.walk(fs) if isinstance(x, ast.Return)]
+        def _resolve(e, depth=0):
+            if isinstance(e, ast.Name) and e.id != sp_ and depth < 3:
+                asg = [x for x in ast.walk(fs) if isinstance(x, ast.Assign) and len(x.targets) == 1 and isinstance(x.targets[0], ast.Name) and x.targets[0].id == e.id]
+                if len(asg) == 1:
+                    return _resolve(asg[0].value, depth + 1)
+            return e
+        ok_r = False
+        if len(rets_) == 1 and isinstance(rets_[0].value, ast.Call) and getattr(rets_[0].value.func, 'id', None) == 'round' and len(rets_[0].value.args) == 2:
+            a0 = _resolve(rets_[0].value.args[0])
+            ok_r = unparse(rets_[0].value.args[1]) == 'self._places' and isinstance(a0, ast.Call) and getattr(a0.func, 'id', None) == 'float' and len(a0.args) == 1 \
+                and unparse(_resolve(a0.args[0])) in (sp_, f'{sp_}.strip()')
+        rep.ob('K22b', 'FloatField.from_string/rounds-like-value()', ok_r,
+               f'FloatField.from_string() returns `{unparse(rets_[0].value, 60) if rets_ else None}`, not round(float(text), self._places) - the rounding FloatField.value() applied when the amount '
+               'was stored: for some magnitudes the amount read back differs from the amount written', f'{ci.rel}:{fs.lineno}')
     ok = ts is not None and fs is not None and 'self._places' in unparse(ts) and 'self._places' in unparse(fs) \
         and any(isinstance(x, ast.JoinedStr) for x in ast.walk(ts))
     rep.ob('K22b', 'FloatField/same-places-both-ways', ok, 'FloatField.to_string and from_string do not use the same number of decimal places', ci.rel)
@@ -1514,6 +1579,14 @@ def k23_filler(core, rep):
     g = cv.cfg
     ok = len(raises) == 1 and all(any('not in self._choices' in t_ and pol is False for t_, pol in g.branch_facts(n)) for n in g.nodes if n.kind == 'stmt' and isinstance(n.ast, ast.Return))
     rep.ob('K23c', 'ChoicePDFField/outside-choices-raises', ok, 'a value outside the choice list does not raise PDFInvalidChoiceValue', _w(cv))
+    # the text that is tested for membership is the text that is returned: testing a converted copy (upper-cased, stripped)
+    # lets a value through that is not one of the choices as written
+    rets_c = [n.ast for n in g.nodes if n.kind == 'stmt' and isinstance(n.ast, ast.Return) and n.ast.value is not None]
+    tests_c = [x for x in ast.walk(cv.node) if isinstance(x, ast.Compare) and len(x.ops) == 1 and isinstance(x.ops[0], (ast.NotIn, ast.In)) and self_attr(x.comparators[0]) == '_choices']
+    same = bool(rets_c) and bool(tests_c) and all(unparse(t_.left) == unparse(r_.value) for t_ in tests_c for r_ in rets_c)
+    rep.ob('K23c', 'ChoicePDFField/tests-the-value-it-returns', same,
+           f'ChoicePDFField.value() tests `{unparse(tests_c[0].left, 40) if tests_c else None}` against the choice list but returns `{unparse(rets_c[0].value, 40) if rets_c else None}`: a text that only '
+           'resembles a choice (other case, blanks) passes and is written into the form as it is', _w(cv))
     ff = core.method('PDFFiller', '_fill_form')
     for t in [t for t in ast.walk(ff.node) if isinstance(t, ast.Try)]:
         for h in t.handlers:
@@ -1806,6 +1879,21 @@ def k32_solve_single_exit(core, rep):
             brk.append(st)
         elif not isinstance(st, (ast.For, ast.While)):
             brk.extend(_breaks_outer(st))
+    def _own_raises(n):
+        out = []
+        for ch in ast.iter_child_nodes(n):
+            if isinstance(ch, (ast.FunctionDef, ast.Lambda)):
+                continue
+            if isinstance(ch, ast.Raise):
+                out.append(ch)
+            else:
+                out.extend(_own_raises(ch))
+        return out
+    raises = _own_raises(outer)
+    rep.ob('K32', 'scheduling-loop-has-no-budget-of-its-own', not raises,
+           f'Solver.solve() raises from inside its scheduling loop (`{unparse(raises[0], 60) if raises else ""}`): how many rounds a return needs depends on the order in which lines are attempted '
+           'and on how many inputs are answered at the prompt instead of read from the file, so a cut-off on rounds makes the same return solve or fail depending on that order',
+           f'{sv.rel}:{raises[0].lineno}' if raises else _w(sv))
     bad = rets + brk
     rep.ob('K32', 'solve-leaves-its-loop-only-through-the-condition', not bad,
            f'Solver.solve() leaves its scheduling loop with `{unparse(bad[0], 40) if bad else ""}`: dependencies already marked met are not drained, so lines whose inputs were '
@@ -1970,6 +2058,95 @@ def k35_store_loaded_eagerly(core, rep):
     rep.ob('K35', 'constructor-keeps-the-file-as-read', not muts,
            f'InputStore.__init__ rewrites the parsed file (`{unparse(muts[0], 60) if muts else ""}`): assigning a section to a name that already exists clears that section first, removing '
            'sections or options drops values - the next write-back then removes them from the file', _w(init, muts[0]) if muts else _w(init))
+
+
+# ---------------------------------------------------------------- K36 mutable default arguments are never written to
+def k36_mutable_defaults_untouched(core, rep):
+    """A default such as `field_names=[]` is one object for the life of the process.  A function that appends to, or stores
+    into, a parameter with such a default leaves the addition behind for every later call that relies on the default: a
+    second solve (or fill) in the same process starts with the leftovers of the first."""
+    n = 0
+    for fn in core.funcs:
+        a = fn.node.args
+        params = a.posonlyargs + a.args
+        defaults = [None] * (len(params) - len(a.defaults)) + list(a.defaults)
+        pairs = list(zip(params, defaults)) + list(zip(a.kwonlyargs, a.kw_defaults))
+        for prm, dflt in pairs:
+            if dflt is None or not _mutable_literal(dflt):
+                continue
+            n += 1
+            name = prm.arg
+            rebound_first = False
+            muts = []
+            for x in ast.walk(fn.node):
+                if isinstance(x, ast.Call) and isinstance(x.func, ast.Attribute) and isinstance(x.func.value, ast.Name) and x.func.value.id == name \
+                        and x.func.attr in MUTATORS + ('add', 'setdefault', 'sort', 'reverse', 'discard', 'popitem'):
+                    muts.append(x)
+                if isinstance(x, (ast.Assign, ast.AugAssign, ast.Delete)):
+                    for t_ in (x.targets if isinstance(x, (ast.Assign, ast.Delete)) else [x.target]):
+                        if isinstance(t_, ast.Subscript) and isinstance(t_.value, ast.Name) and t_.value.id == name:
+                            muts.append(x)
+                        if isinstance(x, ast.AugAssign) and isinstance(t_, ast.Name) and t_.id == name:
+                            muts.append(x)
+            rep.ob('K36', f'{fn.qual}({name}={unparse(dflt)})', not muts,
+                   f'{fn.qual}() changes its parameter `{name}` in place (`{unparse(muts[0], 50) if muts else ""}`), and `{name}` defaults to the literal {unparse(dflt)}: the change is kept '
+                   'in the default object, so every later call that relies on the default - another solve or fill in the same process - starts with what this one left behind',
+                   f'{fn.rel}:{muts[0].lineno}' if muts else _w(fn))
+    if n < 2:
+        raise AnalysisError('no function with a mutable default found (the rule expects solve(field_names=[]) and InputStore(input_specs={}); anchor vanished)')
+
+
+# ---------------------------------------------------------------- K11j valid() and value() look the same text up
+def k11j_validator_and_converter_agree(core, rep):
+    """EnumInput.valid() decides on the normalised text (`super().value(string)`, i.e. stripped) and value() must look that
+    same normalised text up: a converter that indexes the enumeration with the raw text raises KeyError for an answer the
+    validator accepted (`Single ` typed at the prompt) - inside the solver, after the answer was stored."""
+    n = 0
+    for cname, ci in core.classes.classes.items():
+        if ci.rel != 'habutax/inputs.py' or 'valid' not in ci.methods or 'value' not in ci.methods:
+            continue
+        keys = {}
+        for mname in ('valid', 'value'):
+            m = ci.methods[mname]
+            prm = m.args.args[1].arg if len(m.args.args) > 1 else None
+            normalised = any(isinstance(x, ast.Assign) and any(isinstance(t_, ast.Name) and t_.id == prm for t_ in x.targets)
+                             and (('super().value(' in unparse(x.value)) or ('.strip()' in unparse(x.value))) for x in ast.walk(m))
+            subs = [x for x in ast.walk(m) if isinstance(x, ast.Subscript) and isinstance(x.ctx, ast.Load) and self_attr(x.value) == 'enum']
+            keys[mname] = (normalised, [unparse(x.slice) for x in subs], prm)
+        if not keys['valid'][1] and not keys['value'][1]:
+            continue
+        n += 1
+        v_norm, v_subs, v_prm = keys['valid']
+        c_norm, c_subs, c_prm = keys['value']
+        same = (v_norm == c_norm) or all(('.strip()' in k) for k in c_subs)
+        rep.ob('K11j', f'{cname}/value-looks-up-what-valid-accepted', same and bool(c_subs),
+               f'{cname}.valid() looks the {"normalised" if v_norm else "raw"} text up in the enumeration but value() looks up the {"normalised" if c_norm else "raw"} text: an answer that differs '
+               'from a member only by surrounding blanks passes validation, is stored, and then raises KeyError when a line reads it', f'{ci.rel}:{ci.methods["value"].lineno}')
+    if n < 1:
+        raise AnalysisError('no input class with an enumeration lookup in valid()/value() found (anchor vanished)')
+
+
+# ---------------------------------------------------------------- K25b list-forms prints every name in full
+def k25b_list_forms_prints_names_whole(core, rep):
+    """The name column of `list-forms` is what the user copies into --form / list-form-inputs: it is padded, never cut.  A
+    precision in the format field (`{:>30.30}`), a slice of the name or a textwrap.shorten() prints a name that is not a
+    form of the catalogue."""
+    import re as _re
+    f = core.func('habutax/__init__.py', None, 'list_forms')
+    fmts = [n for n in ast.walk(f.node) if isinstance(n, ast.Constant) and isinstance(n.value, str) and '{' in n.value and '|' in n.value]
+    if not fmts:
+        raise AnalysisError('list_forms(): the row format was not found (anchor vanished)')
+    for c in fmts:
+        first = _re.match(r'\s*\{([^{}]*(?:\{[^{}]*\}[^{}]*)*)\}', c.value)
+        spec = first.group(1).partition(':')[2] if first else ''
+        rep.ob('K25b', 'name-column-is-not-cut', '.' not in spec,
+               f'list-forms formats the name column with `{{:{spec}}}`: a precision cuts names longer than the column, and the printed name is then not the name of any form '
+               '(list-form-inputs and --form reject it)', _w(f, c))
+    loopvars = [n.target.id for n in ast.walk(f.node) if isinstance(n, ast.For) and isinstance(n.target, ast.Name)]
+    names = [x for x in ast.walk(f.node) if isinstance(x, ast.Assign) and isinstance(x.targets[0], ast.Name) and isinstance(x.value, ast.Attribute) and x.value.attr == 'form_name']
+    cut = [x for x in ast.walk(f.node) if isinstance(x, ast.Subscript) and isinstance(x.slice, ast.Slice) and any(isinstance(y, ast.Name) and names and y.id == names[0].targets[0].id for y in ast.walk(x.value))]
+    cut += [c for c in calls_in(f.node) if call_name(c) in ('shorten', 'truncate', 'ljust_cut')]
+    rep.ob('K25b', 'name-printed-is-form_name', bool(names) and not cut, 'list-forms slices or shortens the form name it prints', _w(f, cut[0]) if cut else _w(f))
 
 
 # ---------------------------------------------------------------- K24 dependency tracker shape
@@ -2294,6 +2471,21 @@ def k27_complete_diagnostics(core, rep):
     f = core.func(cli, None, 'solve')
     getters = ('unimplemented_fields', 'unmet_input_dependencies', 'unmet_field_dependencies')
     k34_no_shared_mutable_fill(core, rep)
+    # the getters hand out everything the solver recorded: the two dependency getters return _unmet_dependencies(<tracker>)
+    # itself, which lists every recorded dependency with every waiter - no regrouping that can leave an entry out (lines
+    # that wait on each other have no "root" to be grouped under)
+    for gname in ('unmet_input_dependencies', 'unmet_field_dependencies'):
+        gf = core.method('Solver', gname)
+        rets = [r for r in ast.walk(gf.node) if isinstance(r, ast.Return)]
+        ok = len(rets) == 1 and isinstance(rets[0].value, ast.Call) and call_name(rets[0].value) == '_unmet_dependencies' and len(rets[0].value.args) == 1 and self_attr(rets[0].value.args[0])
+        rep.ob('K27', f'{gname}/returns-every-recorded-dependency', bool(ok),
+               f'Solver.{gname}() returns `{unparse(rets[0].value, 60) if rets else None}` instead of the full table of recorded dependencies: entries can be left out of the failure report '
+               '(lines blocked behind each other are then not named at all)', _w(gf))
+    ud = core.method('Solver', '_unmet_dependencies')
+    loops = [n for n in ast.walk(ud.node) if isinstance(n, (ast.For, ast.comprehension, ast.DictComp))]
+    cond = [n for n in ast.walk(ud.node) if isinstance(n, (ast.If, ast.IfExp, ast.Continue, ast.Break))] + [c for n in ast.walk(ud.node) if isinstance(n, ast.comprehension) for c in n.ifs]
+    rep.ob('K27', '_unmet_dependencies/lists-every-entry', bool(loops) and not cond,
+           'Solver._unmet_dependencies() filters the recorded dependencies (a condition inside the loop): some are not reported', _w(ud))
     by_name = {}
     for g in core.funcs:
         if g.rel == cli and g.cls is None:
